@@ -9,7 +9,7 @@ VERIF = os.path.dirname(os.path.dirname(os.path.abspath(__file__)))
 CHECKS = {
     "C12": (
         "fault_enumeration",
-        "exhaustive hostile-message catalogue x target kind x insertion position x transport {TCP, TTY, direct} + Hypothesis-filled names/values, survival and state-frame oracle on real handlers over fake streams",
+        "exhaustive hostile-message catalogue x target kind x insertion position x transport {TCP, TTY, direct} + Hypothesis-filled names/values, x split delivery x log forwarding on/off, with a snooping driver in the server; survival, applicable-part-applied and state-frame oracle on real handlers over fake streams",
         "Fault enumeration: every entry of a catalogue of hostile-but-well-formed client messages is injected at every position of a "
         "session of valid traffic on each transport; afterwards nothing may have escaped message handling, only validly named elements "
         "may have changed (to the submitted values), the sender and a bystander must still be registered and served, and a valid request "
@@ -19,7 +19,7 @@ CHECKS = {
     ),
     "C14": (
         "exploration",
-        "Hypothesis handler configurations x element kinds x op sequences x 1-2 instances, handler-trace vs analytic expectation",
+        "Hypothesis handler configurations x element kinds x op sequences x 1-2 instances, (base/derived class mix), exhaustive nested-write configurations (a handler forwarding with set_value); handler-trace vs analytic expectation",
         "Generated-input search over handler configurations and write sequences: handlers are tracing closures declared through the "
         "documented @on decorator on generated driver classes; after each operation the trace, the element value and the recorded "
         "publications are compared with the analytic expectation of the event contract (Write once and first, veto, one publication "
@@ -29,7 +29,7 @@ CHECKS = {
     ),
     "C15": (
         "exploration",
-        "Hypothesis message streams over a small name universe (redefinition, kind mismatch, unknown targets, deletions) x foreign spellings x fragmentation, reference-client differential after every message",
+        "Hypothesis message streams over a small name universe (redefinition, kind mismatch, unknown targets, deletions) x foreign spellings x fragmentation, verbatim repeats, updates aimed at earlier definitions, contradictory / compressed BLOB sizes, mid-stream client writes; reference-client differential (validity predicate where the statement leaves a choice) after every message",
         "Model-based generated search: the client's public view is compared with an independent reference interpreter of the INDI client "
         "rules after every message of generated streams (direct), and at the end of the same streams sent as fragmented bytes through "
         "the real client connection handler, whose receive task must survive. Exploration.",
@@ -38,7 +38,7 @@ CHECKS = {
     ),
     "C16": (
         "exploration",
-        "Hypothesis histories of stream messages interleaved with callback registration/removal (filters x event types x plain/coroutine/raising/one-shot), reference event derivation + probe-filter differential",
+        "Hypothesis histories of stream messages interleaved with callback registration/removal (filters x event types x plain/coroutine/raising/one-shot), callbacks as function/partial/method/callable object, mid-stream client writes; reference event derivation + probe-filter differential",
         "Model-based generated search over histories: the dispatched event sequence (seen by a filter-less probe) must equal, per message, "
         "the events the reference interpreter derives (change chains per definition epoch), and each callback's log must equal the probe's "
         "sequence filtered by its predicate and registration window. The generator is measured for the one-shot-followed-by-matching "
@@ -48,7 +48,7 @@ CHECKS = {
     ),
     "C17": (
         "exploration",
-        "exhaustive virtual-time grid enumeration (arrival instants x match patterns x timeout x polling x condition x event kind) on a deterministic virtual-clock loop + Hypothesis finer grids / concurrent waits, analytic oracle",
+        "exhaustive virtual-time grid enumeration (arrival instants x match patterns x timeout x polling x condition x event kind) on a deterministic virtual-clock loop + Hypothesis finer grids / concurrent waits (per-wait polling schedules, raising checks), analytic oracle",
         "Schedule search with the harness owning the clock: every placement of <= 2 (quick) / <= 3 (thorough) events on an 11-point grid "
         "with every timeout, polling setting, condition and event kind runs against the real waitforevent on a virtual-time event loop; "
         "the oracle is analytic (first matching event object of a probe's log, completion instant, polling tick instants, callback "
@@ -97,7 +97,7 @@ CHECKS = {
     ),
     "C02": (
         "exploration",
-        "exhaustive 1/2/3-cut and char-by-char partition sweeps of a corpus + Hypothesis streams/partitions, prefix-delivery oracle from the generating specs",
+        "exhaustive 1/2/3-cut and char-by-char partition sweeps of a corpus + Hypothesis streams/partitions, prefix-delivery oracle from the generating specs; the same oracle through the real read loops of the TCP client/server and TTY handlers with read-size-aligned chunking",
         "Generated-input search: message streams in canonical and foreign spellings are fed to the real Buffer under every 1-, 2- (3- in "
         "thorough) cut partition of a corpus and under drawn partitions of drawn streams, at three thresholds; after every process call the "
         "delivered views must equal the expected views of exactly the messages completed so far. Exploration with exhaustive parts.",
@@ -162,7 +162,7 @@ CHECKS = {
     ),
     "C08": (
         "exploration",
-        "exhaustive payload-length sweeps in both directions x fragmentations + Hypothesis policy matrix (single-connection clients, raw peers) + MB payloads (thorough), bit-exactness / no-leak / no-stall oracle through the full stack",
+        "exhaustive payload-length sweeps in both directions x fragmentations + Hypothesis policy matrix (single-connection clients, raw peers) + MB payloads (thorough), back-to-back bursts under back-pressure (yielding drains, > 64 KiB and multi-MB), a BLOB-enabled snooping driver, read-size alignment measured on the live stack; bit-exactness / no-leak / no-stall oracle through the full stack",
         "Generated-input search through the whole stack: every payload length of the stated ranges is published by a driver and received "
         "by the library Client over its BLOB connection, and uploaded by the Client to the driver, under three fragmentations; Hypothesis "
         "adds formats, BLOB kinds and observers with every policy; a sentinel update after each BLOB proves nothing stalls. Losses are "
@@ -173,7 +173,7 @@ CHECKS = {
     ),
     "C09": (
         "exploration",
-        "exhaustive state-graph enumeration (rule x n x state x operation) + Hypothesis histories, rule invariants on states and on every published update",
+        "exhaustive state-graph enumeration (rule x n x state x operation) + Hypothesis histories, incl. histories that hide and show switches; rule invariants on states and on every published update",
         "Generated search over the complete transition graph of switch vectors up to n=5 (quick) / 6 (thorough) switches: every "
         "(state, operation) pair runs on a fresh driver behind a real Router with a recording client; invariants are checked on the "
         "after-state and on each setSwitchVector published on the way. Exhaustive inside the bound; Hypothesis histories up to n=8.",
